@@ -81,36 +81,36 @@ def make_callable(m, is_async, log):
     sig = m['sig']
     body = m['body']
     coro = m.get('coro', is_async) and is_async
-    ns = {'__log': log, '__exc': EXC_TABLE, 'pjrpc': pjrpc, 'UNSET': UNSET, '__body': body, '__name': m['name']}
+    ns = {'HLOG_': log, 'HEXC_': EXC_TABLE, 'pjrpc': pjrpc, 'UNSET': UNSET, 'HBODY_': body, 'HNAME_': m['name']}
     view = m['ctx'][0] == 'view'
     env = env_expr(sig)
     if view and m['ctx'][1]:
         env = '[["<ctx>", self._ctx]] + ' + env
     lines = []
-    lines.append('    __env = %s' % env)
-    lines.append('    __log.append(["call", __name, __env])')
+    lines.append('    HENV_ = %s' % env)
+    lines.append('    HLOG_.append(["call", HNAME_, HENV_])')
     if coro and m.get('yields'):
         # suspension points AFTER the call was logged: under a concurrent batch a later element finishes first
-        lines.append('    import asyncio as __a')
-        lines.append('    for __k in range(%d): await __a.sleep(0)' % m['yields'])
+        lines.append('    import asyncio as HA_')
+        lines.append('    for HK_ in range(%d): await HA_.sleep(0)' % m['yields'])
     if body[0] == 'env':
-        lines.append('    return __env')
+        lines.append('    return HENV_')
     elif body[0] == 'ret':
-        lines.append('    return __body[1]')
+        lines.append('    return HBODY_[1]')
     elif body[0] == 'rpc':
-        lines.append('    raise pjrpc.exceptions.JsonRpcError(code=__body[1], message=__body[2], data=(UNSET if __body[3] == "<unset>" else __body[3]))')
+        lines.append('    raise pjrpc.exceptions.JsonRpcError(code=HBODY_[1], message=HBODY_[2], data=(UNSET if HBODY_[3] == "<unset>" else HBODY_[3]))')
     else:
-        lines.append('    raise __exc[__body[1]]()')
+        lines.append('    raise HEXC_[HBODY_[1]]()')
     kw = 'async def' if coro else 'def'
     fname = m.get('pyname', m['name'].split('.')[-1]) or 'f'
     if not fname.isidentifier():
         fname = 'f'
     params = sig_source(sig)
     if view:
-        src = 'class V(__Mixin):\n    def __init__(self, ctx=None):\n        self._ctx = ctx\n'
+        src = 'class V(HMIXIN_):\n    def __init__(self, ctx=None):\n        self._ctx = ctx\n'
         src += '    %s %s(self%s):\n' % (kw, fname, (', ' + params) if params else '')
         src += '\n'.join('    ' + l for l in lines) + '\n'
-        ns['__Mixin'] = _disp.ViewMixin
+        ns['HMIXIN_'] = _disp.ViewMixin
         exec(src, ns)
         return ns['V'], True, fname
     src = '%s %s(%s):\n' % (kw, fname, params) + '\n'.join(lines) + '\n'
